@@ -41,8 +41,9 @@ Definition kwargs_eqb (a b : kwargs) : bool :=
 (* ---- operands: opaque queries ----
    o_sel      the aliases of the selected terms (len(q._selects) = its length; the aliases matter only for the
               base query, whose selected aliases drive ORDER BY substitution);
-   o_builder  the object is a QueryBuilder, i.e. it HAS a _selects list.  A _SetOperation, Table or AliasedQuery
-              is a Selectable whose __getattr__ answers q._selects with Field('_selects'): len() raises TypeError;
+   o_builder  the object HAS a _selects list: a QueryBuilder, or a _SetOperation (whose _selects property answers with
+              its base query's list, so a chain can be an operand of a chain).  A Table or AliasedQuery is a Selectable
+              whose __getattr__ answers q._selects with Field('_selects'): len() raises TypeError;
    o_wrap/o_dialect/o_quote   the attributes wrap_set_operation_queries / dialect / QUOTE_CHAR of the object;
    o_text k sub   q.get_sql(subquery=sub, **k)  — the operand's own rendering, not interpreted here. *)
 Record operand := {
@@ -277,6 +278,13 @@ Definition paren_okb (k : kwargs) (o : operand) : bool :=
   String.eqb (o_text o k true) ("(" ++ o_text o k false ++ ")").
 Definition frag (s : setop) (k : kwargs) : bool :=
   all_builders s && (negb (o_wrap (s_base s)) || forallb (paren_okb (eff_kwargs s k)) (operands s)).
+
+(* a finished chain used as an operand of another chain: it has its base's selected terms; its rendering is its own
+   get_sql under the kwargs it is handed (which then already carry dialect and quote_char).  "" stands for the case
+   where the inner chain itself raises; the theorems exclude it. *)
+Definition as_operand (c : setop) : operand :=
+  {| o_sel := o_sel (s_base c); o_builder := o_builder (s_base c); o_wrap := false; o_dialect := None; o_quote := None;
+     o_text := fun k sub => match render_setop c k false sub with ROk t => t | _ => "" end |}.
 
 (* operand list of a program, in call order *)
 Definition step_ops (steps : list step) : list (sokind * operand) :=
